@@ -4,6 +4,7 @@
 //! reported as `PANIC <message>`.
 mod k_dev;
 mod k_errtab;
+mod k_lex;
 mod k_mm;
 mod k_queue;
 mod util;
@@ -17,6 +18,7 @@ fn dispatch(kind: &str, args: &[&str]) -> String {
         "dev" => k_dev::run(args),
         "devtree" => k_dev::dump_tree(),
         "mm" => k_mm::run(args),
+        "lex" => k_lex::run(args),
         _ => format!("UNKNOWN-KIND {}", kind),
     }
 }
